@@ -32,14 +32,17 @@ TECHNIQUE = (
     "runtime oracle: record sequences are logged through gallia's real logger and zstd file handler while a shadow "
     "list (text, level, tags, created) is captured at log time; PenlogReader (forward, reverse, offset k, priority "
     "thresholds, reused reader objects incl. len() asked in the middle of an iteration) and the hr entry point (in-process and as "
-    "subprocess; --head/--tail/--reverse/--priority/--lines; .zst, .gz, plain, prefix-less, stdin file and pipe; one file, the same file "
+    "subprocess; --head/--tail/--reverse/--priority/--lines; .zst, .gz, plain, prefix-less, stdin file and pipe; .zst files of several zstd "
+    "frames (logs of 2..4 runs of the real writer joined as `cat` does; the same bytes re-framed by the harness) and .gz files of several "
+    "gzip members; one file, the same file "
     "twice, several different files of different lengths incl. an empty one) are compared with list operations on the shadow list"
 )
 LEVEL_TEXT = (
     "Exploration: some hundred (quick) to ten thousand (thorough) generated logs of length 0..3000 (arbitrary Unicode scalar "
     "values, control characters, newlines, lines up to 1 MiB, all seven levels, tags, exception traces) are written by the real "
     "writer and read back by the real reader and hr in every navigation mode; each result is compared with the corresponding "
-    "slice of the shadow list. Held means held on those logs and mode parameters."
+    "slice of the shadow list. About a fifth of the logs is written by several runs whose .zst files are joined; every log is also "
+    "read from a .zst of several frames and a .gz of several members. Held means held on those logs and mode parameters."
 )
 LEVEL_NOTE = (
     "Trusted: the list model in vf/models/logmodel.py, the zstandard/gzip libraries used to derive the other containers from "
@@ -49,7 +52,11 @@ RULE = (
     "a log = (file level, logger name, sequence of record specs: method in trace..critical/result/exception/log, text = unique "
     "marker '#id<i>#' + payload drawn from ASCII, random Unicode scalars, control characters, newline variants, JSON-significant "
     "text, %-text, boundary code points, 64Ki..1Mi long lines; tags None/[]/1..3 strings; optional raised-and-caught exception); "
-    "lengths 0,1,2,3,5,7,99,100,101 enumerated plus random lengths up to 600 (quick) / 3000 (thorough). A case = (log, component "
+    "lengths 0,1,2,3,5,7,99,100,101 enumerated plus random lengths up to 600 (quick) / 3000 (thorough); optional run boundaries "
+    "(1..3 indices into the sequence, incl. 0 and the end = a run that logs nothing): every run gets its own handler lifetime and file, the "
+    "files are concatenated into the .zst that is read. Containers zst-frames / gz-members: the decompressed bytes cut into >=2 parts "
+    "(one per record | 1..5 cuts at record ends | 1..3 cuts at arbitrary bytes | plus parts without content, also first and last), every "
+    "part one complete zstd frame (one-shot or streamed = without content size, checksum on/off, level 1..6) or gzip member. A case = (log, component "
     "reader|hr|hr-subprocess, container, mode, parameters): for logs of <=3 records every mode x threshold x container x n is "
     "enumerated, larger logs get a fixed core set plus a random sample. A case is trivial only when the log holds exactly one record "
     "and the mode is unfiltered forward reading; distinct = distinct (log content hash, component, container, mode, parameters). "
@@ -65,6 +72,9 @@ ASSUMPTIONS = [
     "timestamps are compared at microsecond resolution (the log stores ISO-8601 with microseconds)",
     "reader offsets k are only exercised within the valid index range -len <= k < len; for --tail both readings of 'last n' are accepted; records(reverse=True) without offset may mean the whole log reversed or just record 0",
     "gallia only writes .zst; the .gz, plain, prefix-less and stdin inputs are derived by the harness from the decompressed bytes of that file",
+    "a .zst input is any sequence of zstd data frames and a .gz input any sequence of gzip members; its content is the concatenation of what "
+    "the frames / members decode to (RFC 8878 section 3, RFC 1952 section 2.2; what `zstd -d` / `gzip -d` print) - so the logs of several "
+    "runs joined with `cat` read back as the records of the first run followed by those of the next; skippable frames are not generated",
     "hr output: order, multiplicity and text of the records are compared exactly (marker based); tags and time of day are required as substrings of the line header; the level is only observable through the priority filter",
     "subprocess hr runs with PYTHONUTF8=1 (the sandbox has a POSIX locale); stdout is decoded as UTF-8",
     "reuse of one PenlogReader object for several passes is taken to be covered by 'any navigation mode' (offset table for random access); "
@@ -79,8 +89,10 @@ PY = "/venv/bin/python"
 METHODS = ["trace", "debug", "info", "notice", "warning", "error", "critical", "result", "exception", "log"]
 LEVEL_NAMES = ["trace", "debug", "info", "notice", "warning", "error", "critical"]
 LOGGER_NAMES = ["gallia.c17", "gallia.scanner.\u00fc7", "gallia.a.b.c"]
-READER_CONTAINERS = ["zst", "plain", "gz", "noprefix", "mixedprefix"]
-HR_CONTAINERS = ["zst", "plain", "gz", "noprefix", "mixedprefix", "stdin-file", "stdin-pipe"]
+# "zst-frames" / "gz-members": the same decompressed bytes as a .zst of several zstd frames / a .gz of several gzip members
+READER_CONTAINERS = ["zst", "plain", "gz", "noprefix", "mixedprefix", "zst-frames", "gz-members"]
+HR_CONTAINERS = ["zst", "plain", "gz", "noprefix", "mixedprefix", "zst-frames", "gz-members", "stdin-file", "stdin-pipe"]
+SEVERAL_PARTS = {"zst-frames": "multi-frame-zst", "gz-members": "multi-member-gz"}
 MARK = re.compile(r"#id(\d+)#")
 
 
@@ -89,7 +101,7 @@ MARK = re.compile(r"#id(\d+)#")
 def shards(tier: str, seed: int) -> list[dict[str, Any]]:
     n = 16
     if tier == "quick":
-        return [{"part": i, "parts": n, "logs": 26, "maxlen": 600, "sub": 6, "wall": 38.0} for i in range(n)]
+        return [{"part": i, "parts": n, "logs": 26, "maxlen": 600, "sub": 6, "wall": 42.0} for i in range(n)]
     return [{"part": i, "parts": n, "logs": 640, "maxlen": 3000, "sub": 40, "wall": 400.0} for i in range(n)]
 
 
@@ -118,6 +130,22 @@ def required_reach(tier: str) -> dict[str, int]:
         "reader.reuse.len-during-reverse-iteration.records-before-and-after": 10,
         "reader.reuse.first-len-during-forward-iteration": 50,
     }
+    # input files that consist of several zstd frames / gzip members (logs of several runs joined, writers that end frames)
+    need.update({
+        "log.written-in-several-runs": 10, "log.written-in-several-runs.records-after-first-run": 8, "log.written-in-several-runs.run-without-records": 2,
+        "reader.reuse.zst-of-several-runs.content-after-first-part": 20, "hr.multi-files.file-of-several-parts": 100,
+    })
+    for base, scale in (("reader", 1), ("hr", 2)):
+        need[f"{base}.zst-of-several-runs.content-after-first-part"] = 100 * scale
+        need[f"{base}.zst-of-several-runs.part-without-content"] = 20
+        need[f"{base}.multi-frame-zst.frame-without-content-size"] = 100
+        for cls in SEVERAL_PARTS.values():
+            need[f"{base}.{cls}.content-after-first-part"] = 150 * scale
+            need[f"{base}.{cls}.cut-at-record-boundary"] = 50
+            need[f"{base}.{cls}.cut-inside-record"] = 50
+            need[f"{base}.{cls}.one-part-per-record"] = 30
+            need[f"{base}.{cls}.part-without-content"] = 30
+            need[f"{base}.{cls}.first-part-without-content"] = 20
     for lv in LEVEL_NAMES:
         need[f"level.{lv}"] = 20
         need[f"file_level.{lv}"] = 1
@@ -261,7 +289,13 @@ def gen_logdef(rng: random.Random, maxlen: int, force_long: bool = False) -> dic
             s["rep"] = [unit, total // len(unit)]
             if s["m"] in ("trace", "debug") and rng.random() < 0.7:
                 s["m"] = "info"
-    return {"file_level": fl, "logger": rng.choice(LOGGER_NAMES), "specs": specs}
+    ld: dict[str, Any] = {"file_level": fl, "logger": rng.choice(LOGGER_NAMES), "specs": specs}
+    # some logs are written by 2..4 runs of the real writer (one file per run), the files are then joined as `cat` does;
+    # "runs" = the indices into specs at which the next run starts (0 or n: a run that logs nothing)
+    if rng.random() < 0.22:
+        lo = min(1, n)
+        ld["runs"] = sorted(rng.randint(0, n) if rng.random() < 0.2 else rng.randint(lo, max(n - 1, lo)) for _ in range(rng.choice([1, 1, 1, 2, 3])))
+    return ld
 
 
 def simple_specs(methods: list[str], text: str = "msg") -> list[dict[str, Any]]:
@@ -296,6 +330,13 @@ def edge_logdefs(tier: str) -> list[dict[str, Any]]:
         {"i": 1, "m": "notice", "text": " long ascii ", "tags": None, "rep": ["x", 1 << 20]},
         {"i": 2, "m": "debug", "text": " after", "tags": ["z"]},
     ]})
+    # logs of several runs joined into one .zst file
+    out.append({"file_level": "trace", "logger": "gallia.c17", "specs": simple_specs(["info", "error", "debug", "warning", "info"]), "runs": [2]})
+    out.append({"file_level": "trace", "logger": "gallia.c17", "specs": simple_specs(["info", "critical"]), "runs": [1]})
+    out.append({"file_level": "trace", "logger": "gallia.a.b.c", "specs": simple_specs(L + L[::-1]), "runs": [3, 3, 9]})
+    out.append({"file_level": "trace", "logger": "gallia.c17", "specs": simple_specs(["notice", "trace", "error"]), "runs": [0]})
+    out.append({"file_level": "info", "logger": "gallia.c17", "specs": simple_specs(["info", "debug", "trace", "warning", "debug"]), "runs": [1, 3]})
+    out.append({"file_level": "trace", "logger": "gallia.c17", "specs": simple_specs([L[(i * 3) % 7] for i in range(120)]), "runs": [100, 119]})
     out.append({"file_level": "trace", "logger": "gallia.c17", "specs": [
         {"i": 0, "m": "error", "text": " long lines ", "tags": None, "rep": ["line\n", (1 << 16) // 5]},
         {"i": 1, "m": "info", "text": " long astral ", "tags": None, "rep": ["\U0001f600", (1 << 20) if tier == "thorough" else (1 << 18)]},
@@ -402,50 +443,60 @@ class _Raise:
         raise et(exc["msg"])
 
 
-def write_log(logdef: dict[str, Any], path: Path) -> list[dict[str, Any]]:
-    """Log the specs through gallia's logger + zstd handler; return the shadow list."""
+def run_segments(logdef: dict[str, Any]) -> list[list[dict[str, Any]]]:
+    """The record specs of each run of the writer (one run unless the log definition names run boundaries)."""
+    specs = logdef["specs"]
+    cuts = [0, *[min(max(int(c), 0), len(specs)) for c in logdef.get("runs") or []], len(specs)]
+    return [specs[a:b] for a, b in zip(cuts, cuts[1:])]
+
+
+def write_log(logdef: dict[str, Any], paths: list[Path]) -> list[dict[str, Any]]:
+    """Log the specs through gallia's logger + zstd handler, one handler lifetime and one file per run; return the shadow list."""
     from gallia.log import Loglevel, add_zst_log_handler, get_logger, remove_zst_log_handler
 
     lg = get_logger(logdef["logger"])
     Env.created.clear()
     Env.thread_errors.clear()
     shadow: list[dict[str, Any]] = []
-    handler = add_zst_log_handler("gallia", path, Loglevel(M.LEVELNO[logdef["file_level"]]))
-    try:
-        for spec in logdef["specs"]:
-            m = spec["m"]
-            fmt = text_of(spec)
-            args = tuple(spec["args"]) if spec.get("args") else ()
-            if args:
-                fmt = fmt.replace("%", "%%") + " v=%s n=%d"
-                text = fmt % args
-            else:
-                text = fmt
-            tags = spec.get("tags")
-            extra = {"tags": list(tags)} if tags is not None else None
-            levelno = levelno_of(spec)
-            trace = None
-            fn = lg.log if m == "log" else getattr(lg, m)
-            pre = (levelno,) if m == "log" else ()
-            if spec.get("exc"):
-                try:
-                    _Raise.go(spec["exc"], int(spec["exc"].get("depth", 0)))
-                except Exception:
-                    trace = "".join(traceback.format_exception(*sys.exc_info()))
-                    if trace.endswith("\n"):
-                        trace = trace[:-1]
-                    if m == "exception":
-                        fn(*pre, fmt, *args, extra=extra)
-                    else:
-                        fn(*pre, fmt, *args, exc_info=True, extra=extra)
-            else:
-                fn(*pre, fmt, *args, extra=extra)
-            shadow.append({
-                "id": spec["i"], "text": text, "levelno": levelno, "prio": M.PRIO_OF_LEVELNO[levelno],
-                "tags": ["result"] if m == "result" else (list(tags) if tags is not None else None), "trace": trace,
-            })
-    finally:
-        remove_zst_log_handler("gallia", handler)
+    segments = run_segments(logdef)
+    assert len(segments) == len(paths)
+    for run_no, (segment, path) in enumerate(zip(segments, paths)):
+        handler = add_zst_log_handler("gallia", path, Loglevel(M.LEVELNO[logdef["file_level"]]))
+        try:
+            for spec in segment:
+                m = spec["m"]
+                fmt = text_of(spec)
+                args = tuple(spec["args"]) if spec.get("args") else ()
+                if args:
+                    fmt = fmt.replace("%", "%%") + " v=%s n=%d"
+                    text = fmt % args
+                else:
+                    text = fmt
+                tags = spec.get("tags")
+                extra = {"tags": list(tags)} if tags is not None else None
+                levelno = levelno_of(spec)
+                trace = None
+                fn = lg.log if m == "log" else getattr(lg, m)
+                pre = (levelno,) if m == "log" else ()
+                if spec.get("exc"):
+                    try:
+                        _Raise.go(spec["exc"], int(spec["exc"].get("depth", 0)))
+                    except Exception:
+                        trace = "".join(traceback.format_exception(*sys.exc_info()))
+                        if trace.endswith("\n"):
+                            trace = trace[:-1]
+                        if m == "exception":
+                            fn(*pre, fmt, *args, extra=extra)
+                        else:
+                            fn(*pre, fmt, *args, exc_info=True, extra=extra)
+                else:
+                    fn(*pre, fmt, *args, extra=extra)
+                shadow.append({
+                    "id": spec["i"], "text": text, "levelno": levelno, "prio": M.PRIO_OF_LEVELNO[levelno],
+                    "tags": ["result"] if m == "result" else (list(tags) if tags is not None else None), "trace": trace, "run": run_no,
+                })
+        finally:
+            remove_zst_log_handler("gallia", handler)
     if len(Env.created) != len(shadow):
         raise RuntimeError(f"shadow capture out of step: {len(Env.created)} stamps for {len(shadow)} records")
     for e, (created, lno) in zip(shadow, Env.created):
@@ -453,6 +504,58 @@ def write_log(logdef: dict[str, Any], path: Path) -> list[dict[str, Any]]:
             raise RuntimeError("shadow capture out of step (level)")
         e["created"] = created
     return shadow
+
+
+# ---------------------------------------------------------------------------------------------
+# .zst of several frames / .gz of several members, derived from the decompressed bytes
+def _one_zstd_frame(piece: bytes, rng: random.Random) -> tuple[bytes, bool]:
+    """One complete zstd frame holding `piece` -> (frame, content size announced in the frame header)."""
+    import zstandard
+
+    kw = {"level": rng.choice([1, 3, 3, 6]), "write_checksum": rng.random() < 0.5}
+    if rng.random() < 0.5:
+        return zstandard.ZstdCompressor(**kw).compress(piece), True
+    buf = io.BytesIO()  # streamed: the frame header carries no content size (what a writer that does not know the length emits)
+    w = zstandard.ZstdCompressor(**kw).stream_writer(buf, closefd=False)
+    step = rng.choice([len(piece) or 1, 4096, 100])
+    for a in range(0, len(piece), step):
+        w.write(piece[a:a + step])
+        if rng.random() < 0.2:
+            w.flush(zstandard.FLUSH_BLOCK)
+    w.close()
+    return buf.getvalue(), False
+
+
+def split_into_parts(raw: bytes, rng: random.Random) -> tuple[list[bytes], str]:
+    """>= 2 pieces whose concatenation is `raw` -> (pieces, how the cut points were chosen)."""
+    ends = [m.end() for m in re.finditer(rb"\n", raw)]  # every record is one line: ends of the records
+    inner = ends[:-1] if ends and ends[-1] == len(raw) else ends
+    k = rng.randrange(100)
+    if inner and len(ends) <= 400 and k < 20:
+        how, cuts = "one-part-per-record", inner
+    elif inner and k < 65:
+        how, cuts = "cut-at-record-boundary", sorted(set(rng.choice(inner) for _ in range(rng.choice([1, 1, 2, 3, 5]))))
+    elif len(raw) >= 2 and k < 90:
+        how, cuts = "cut-inside-record", sorted(set(rng.randrange(1, len(raw)) for _ in range(rng.choice([1, 1, 2, 3]))))
+        if all(c in ends for c in cuts):
+            how = "cut-at-record-boundary"
+    else:
+        how, cuts = "empty-part", []
+    pieces = [raw[a:b] for a, b in zip([0, *cuts], [*cuts, len(raw)])]
+    if how == "empty-part" or rng.random() < 0.15:
+        # a part without content (a run that logged nothing, joined with the others)
+        pieces.insert(rng.choice([0, len(pieces), rng.randint(0, len(pieces))]), b"")
+        if len(pieces) < 2:
+            pieces.append(b"")
+    return pieces, how
+
+
+def parts_info(pieces: list[bytes], how: str) -> dict[str, Any]:
+    first_end = len(pieces[0])
+    total = sum(len(x) for x in pieces)
+    return {"how": how, "parts": len(pieces), "empty_part": any(not x for x in pieces),
+            # some record starts after the end of the first part (something is left to read there)
+            "content_after_first_part": total > first_end, "first_part_empty": first_end == 0 and total > 0}
 
 
 class LogState:
@@ -465,6 +568,8 @@ class LogState:
         self.raw = b""
         self.hash = 0
         self.dir: Path | None = None
+        self.runs = 1  # number of runs of the real writer whose files were joined into paths["zst"]
+        self.parts: dict[str, dict[str, Any]] = {}  # container -> how the file is divided into frames / members
 
     def witness_log(self) -> dict[str, Any]:
         specs = self.logdef["specs"]
@@ -486,9 +591,11 @@ def build_log(ctx: Any, logdef: dict[str, Any], regen: dict[str, Any] | None = N
     d.mkdir(exist_ok=True)
     st.dir = d
     zst = d / "log.json.zst"
-    st.hash = h64(repr((logdef["file_level"], logdef["logger"], logdef["specs"])))
+    st.hash = h64(repr((logdef["file_level"], logdef["logger"], logdef["specs"], *([logdef["runs"]] if logdef.get("runs") else []))))
+    st.runs = len(run_segments(logdef))
+    run_files = [zst] if st.runs == 1 else [d / f"run{r}.json.zst" for r in range(st.runs)]
     try:
-        shadow = write_log(logdef, zst)
+        shadow = write_log(logdef, run_files)
     except RuntimeError:
         raise
     except Exception as e:
@@ -502,9 +609,29 @@ def build_log(ctx: Any, logdef: dict[str, Any], regen: dict[str, Any] | None = N
     st.N = len(st.all)
     if len(shadow) != st.N:
         ctx.reach("log.file_level_drops")
-    with zstandard.open(zst, "rb") as f:
-        st.raw = f.read()
+    run_raw = []
+    for rf in run_files:
+        with zstandard.open(rf, "rb") as f:
+            run_raw.append(f.read())
+    st.raw = b"".join(run_raw)
+    if st.runs > 1:
+        # `cat run0.json.zst run1.json.zst ... > log.json.zst`: one zstd frame per run, decodes to the concatenation (RFC 8878, 3.1)
+        zst.write_bytes(b"".join(rf.read_bytes() for rf in run_files))
+        st.parts["zst"] = parts_info(run_raw, "one-part-per-run")
+        ctx.reach("log.written-in-several-runs")
+        if st.parts["zst"]["content_after_first_part"]:
+            ctx.reach("log.written-in-several-runs.records-after-first-run")
+        if st.parts["zst"]["empty_part"]:
+            ctx.reach("log.written-in-several-runs.run-without-records")
     (d / "log.json").write_bytes(st.raw)
+    prng = random.Random(f"C17/parts/{st.hash}")
+    pieces, how = split_into_parts(st.raw, prng)
+    frames = [_one_zstd_frame(x, prng) for x in pieces]
+    (d / "frames.json.zst").write_bytes(b"".join(fr for fr, _ in frames))
+    st.parts["zst-frames"] = dict(parts_info(pieces, how), no_content_size=any(not known for _, known in frames))
+    pieces, how = split_into_parts(st.raw, prng)
+    (d / "members.json.gz").write_bytes(b"".join(gzip.compress(x, compresslevel=prng.choice([1, 6]), mtime=0) for x in pieces))
+    st.parts["gz-members"] = parts_info(pieces, how)
     with gzip.open(d / "log.json.gz", "wb", compresslevel=1) as g:
         g.write(st.raw)
     (d / "noprefix.json").write_bytes(re.sub(rb"(?m)^<\d+>", b"", st.raw))
@@ -513,6 +640,7 @@ def build_log(ctx: Any, logdef: dict[str, Any], regen: dict[str, Any] | None = N
     mixed = [re.sub(rb"^<\d+>", b"", ln) if bin(i).count("1") % 2 else ln for i, ln in enumerate(st.raw.splitlines(keepends=True))]
     (d / "mixedprefix.json").write_bytes(b"".join(mixed))
     st.paths = {"zst": zst, "plain": d / "log.json", "gz": d / "log.json.gz", "noprefix": d / "noprefix.json", "mixedprefix": d / "mixedprefix.json",
+                "zst-frames": d / "frames.json.zst", "gz-members": d / "members.json.gz",
                 "stdin-file": d / "log.json", "stdin-pipe": d / "log.json"}
     # reach counters of the workload (what was actually written)
     ctx.reach(f"file_level.{logdef['file_level']}")
@@ -951,6 +1079,28 @@ def execute(st: LogState, cand: dict[str, Any]) -> dict[str, Any]:
     return exec_hr_subprocess(st, cand)
 
 
+def parts_class(container: str, info: dict[str, Any]) -> str:
+    return "zst-of-several-runs" if info["how"] == "one-part-per-run" else SEVERAL_PARTS[container]
+
+
+def reach_parts(ctx: Any, base: str, st: LogState, container: str) -> None:
+    """Reach counters of a case whose input file consists of several zstd frames / gzip members."""
+    info = st.parts.get(container)
+    if info is None:
+        return
+    cls = parts_class(container, info)
+    ctx.reach(f"{base}.{cls}")
+    ctx.reach(f"{base}.{cls}.{info['how']}")
+    if info["content_after_first_part"]:
+        ctx.reach(f"{base}.{cls}.content-after-first-part")
+    if info["empty_part"]:
+        ctx.reach(f"{base}.{cls}.part-without-content")
+    if info["first_part_empty"]:
+        ctx.reach(f"{base}.{cls}.first-part-without-content")
+    if info.get("no_content_size"):
+        ctx.reach(f"{base}.{cls}.frame-without-content-size")
+
+
 def cand_ident(cand: dict[str, Any]) -> tuple[Any, ...]:
     return tuple(sorted((k, str(v)) for k, v in cand.items()))
 
@@ -968,6 +1118,7 @@ def run_case(ctx: Any, st: LogState, cand: dict[str, Any]) -> None:
     ctx.reach(f"{base}.container.{cand['container']}")
     if st.N == 0:
         ctx.reach(f"{base}.empty_log")
+    reach_parts(ctx, base, st, cand["container"])
     if base == "reader":
         if "p" in cand:
             ctx.reach(f"reader.prio.{cand['p']}")
@@ -1017,6 +1168,12 @@ def run_case(ctx: Any, st: LogState, cand: dict[str, Any]) -> None:
         bv = evaluate(st, bc, execute(st, bc))
         if bv is None or bv[0] != k:
             suffix = f"/only-{cand['container']}"
+    if not suffix and st.runs > 1 and cand["container"] in ("zst", "zst-frames"):
+        # the .zst of this log is the joined output of several runs: the same question on the decompressed bytes
+        pc = dict(cand, component=inproc, container="plain")
+        pv = evaluate(st, pc, execute(st, pc))
+        if pv is None or pv[0] != k:
+            suffix = "/only-zst-of-several-runs"
     ctx.violation(k + suffix, what, {"log": st.witness_log(), "case": cand, "argv": res.get("argv"), "detail": detail[:600],
                                       "n_records_in_file": st.N})
 
@@ -1084,6 +1241,10 @@ def run_history(ctx: Any, st: LogState, rng: random.Random, ops: list[dict[str, 
                 ops.append({"mode": "reverse", "p": p})
     ctx.case((st.hash, "history", tuple(cand_ident(o) for o in ops)))
     ctx.reach("reader.reuse")
+    if st.runs > 1:
+        ctx.reach("reader.reuse.zst-of-several-runs")
+        if st.parts["zst"]["content_after_first_part"]:
+            ctx.reach("reader.reuse.zst-of-several-runs.content-after-first-part")
     try:
         reader = PenlogReader(st.paths["zst"])
     except Exception:
@@ -1220,6 +1381,8 @@ def run_multi_case(ctx: Any, files: list[tuple[LogState, str]], cand: dict[str, 
     ctx.reach(f"hr.multi-files.{sub}")
     if cand["component"] == "hr-subprocess":
         ctx.reach("hr.multi-files.subprocess")
+    if any(f.parts.get(c, {}).get("content_after_first_part") for f, c in files):
+        ctx.reach("hr.multi-files.file-of-several-parts")
     if len(set(lens)) > 1:
         ctx.reach("hr.multi-files.different-lengths")
     if lens[0] == 0 and max(lens) > 0:
